@@ -270,6 +270,8 @@ def analyzer_history(rec, seedt):
             Lq = int(rng.integers(1, N + 1))
             if rng.random() < 0.4:
                 Lq = max(1, N // int(rng.choice([1, 2, 3, 4, 5, 6, 10, 12])))   # divides N
+            elif rng.random() < 0.5:
+                Lq = -1   # resolved below: a segment length of the analyzer's own plan
             ops.append((o, float(rng.uniform(0, 0.5)) * fs, Lq))
         elif o == "single-fres":
             Lr = int(rng.integers(2, N + 1))
@@ -286,6 +288,13 @@ def analyzer_history(rec, seedt):
     an = api.attempt(rec, fresh, "constructing the analyzer")
     if an is None:
         return
+    if any(o[0] == "single-L" and o[2] == -1 for o in ops):
+        try:
+            plan_Ls = np.unique(np.asarray(fresh().plan()["L"]))
+        except Exception:
+            plan_Ls = np.array([max(1, N // 3)])
+        ops = [(o[0], o[1], int(rng.choice(plan_Ls))) if (o[0] == "single-L" and o[2] == -1) else o
+               for o in ops]
     fp_data = guard.fingerprint(data)
     first_plan = None
     first_fp = None
